@@ -36,7 +36,7 @@ VARIABLES
   sockClosed,  \* local socket closed
   lock,        \* session.lock holder ("free" or a closer)
   cpc, mu, pending, hasReply, cstat, doneCnt, wgCall,   \* outbound calls
-  rpc, rcur, rerr,                                      \* reader
+  rpc, rcur, rerr, rbuf,                                \* reader (rbuf: frames already in the socket's read buffer)
   rhpc,                                                 \* reply goroutines
   nfput,                                                \* goroutines for replies without a call
   wgCtx, hpc, hres,                                     \* inbound handlers
@@ -47,13 +47,13 @@ VARIABLES
 
 vars == <<status, indexed, notified, discHooks, sockClosed, lock,
           cpc, mu, pending, hasReply, cstat, doneCnt, wgCall,
-          rpc, rcur, rerr, rhpc, nfput, wgCtx, hpc, hres, clpc,
+          rpc, rcur, rerr, rbuf, rhpc, nfput, wgCtx, hpc, hres, clpc,
           rdpc, rdSeen, rdTodo,
           wireIn, wireOut, connUp, replied, sentIn, repliesOut, enteredAtClose>>
 
 sessVars == <<status, indexed, notified, discHooks, sockClosed, lock>>
 callVars == <<cpc, mu, pending, hasReply, cstat, doneCnt, wgCall>>
-readVars == <<rpc, rcur, rerr>>
+readVars == <<rpc, rcur, rerr, rbuf>>
 hdlVars  == <<wgCtx, hpc, hres>>
 rdVars   == <<rdpc, rdSeen, rdTodo>>
 netVars  == <<wireIn, wireOut, connUp, replied, sentIn, repliesOut>>
@@ -68,7 +68,7 @@ Init ==
   /\ cpc = [c \in Calls |-> "idle"] /\ mu = [c \in Calls |-> "free"]
   /\ pending = {} /\ hasReply = [c \in Calls |-> FALSE]
   /\ cstat = [c \in Calls |-> "-"] /\ doneCnt = [c \in Calls |-> 0] /\ wgCall = 0
-  /\ rpc = "next" /\ rcur = None /\ rerr = FALSE
+  /\ rpc = "next" /\ rcur = None /\ rerr = FALSE /\ rbuf = 0
   /\ rhpc = [c \in Calls |-> "none"] /\ nfput = 0
   /\ wgCtx = 0 /\ hpc = [h \in Inb |-> "none"] /\ hres = [h \in Inb |-> "-"]
   /\ clpc = [k \in Closers |-> "idle"]
@@ -151,14 +151,18 @@ ConnDown ==     \* remote close or cut: delivered bytes can still be read, write
 \* before the first hold point.  -> rd.loaded
 ToExit == rpc' = "exit" /\ rdpc' = "loaded" /\ rdSeen' = status
 
-CanRead == sockClosed \/ wireIn # <<>> \/ ~connUp
+\* The socket reads through a buffered reader: one read from the connection takes every byte that has
+\* arrived, so frames sent back-to-back sit in the buffer and can still be decoded after the socket
+\* was closed locally.
+CanRead == rbuf > 0 \/ sockClosed \/ wireIn # <<>> \/ ~connUp
 
 RRecv ==        \* ReadMessage up to the reply lookup.  -> reply.found | read.frame
   /\ rpc = "next" /\ CanRead
-  /\ IF sockClosed \/ wireIn = <<>>
-       THEN /\ rpc' = "frame" /\ rerr' = TRUE /\ rcur' = None /\ UNCHANGED wireIn
+  /\ IF rbuf = 0 /\ (sockClosed \/ wireIn = <<>>)
+       THEN /\ rpc' = "frame" /\ rerr' = TRUE /\ rcur' = None /\ UNCHANGED <<wireIn, rbuf>>
        ELSE LET f == Head(wireIn) IN
             /\ wireIn' = Tail(wireIn) /\ rerr' = FALSE
+            /\ rbuf' = (IF rbuf > 0 THEN rbuf - 1 ELSE Len(wireIn) - 1)
             /\ IF f[1] = "reply"
                  THEN IF f[2] \in pending
                         THEN rpc' = "found" /\ rcur' = f
@@ -171,12 +175,12 @@ RLock ==        \* bindReply: callCmd.mu.Lock(); inputMeta set.  -> reply.locked
   /\ rpc = "found" /\ mu[rcur[2]] = "free"
   /\ mu' = [mu EXCEPT ![rcur[2]] = "reader"] /\ hasReply' = [hasReply EXCEPT ![rcur[2]] = TRUE]
   /\ rpc' = "locked"
-  /\ UNCHANGED <<sessVars, cpc, pending, cstat, doneCnt, wgCall, rcur, rerr, rhpc, nfput,
+  /\ UNCHANGED <<sessVars, cpc, pending, cstat, doneCnt, wgCall, rcur, rerr, rbuf, rhpc, nfput,
                  hdlVars, clpc, rdVars, netVars, enteredAtClose>>
 
 RDecode ==      \* body decode, ReadMessage returns.  -> read.frame
   /\ rpc = "locked" /\ rpc' = "frame" /\ rerr' = (rcur[3] = "bad")
-  /\ UNCHANGED <<sessVars, callVars, rcur, rhpc, nfput, hdlVars, clpc, rdVars, netVars, enteredAtClose>>
+  /\ UNCHANGED <<sessVars, callVars, rcur, rbuf, rhpc, nfput, hdlVars, clpc, rdVars, netVars, enteredAtClose>>
 
 \* the test after ReadMessage: (err != nil && codec == NilCodecID) || !goonRead()
 EarlyReturn == rerr \/ ~GoonRead
@@ -191,7 +195,7 @@ RFrame ==       \* -> read.spawn | rd.loaded
             /\ UNCHANGED wgCtx
        ELSE /\ rpc' = "spawn" /\ wgCtx' = wgCtx + 1
             /\ UNCHANGED <<pending, cstat, doneCnt, wgCall, mu, rdpc, rdSeen>>
-  /\ UNCHANGED <<sessVars, cpc, hasReply, rcur, rerr, rhpc, nfput, hpc, hres, clpc, rdTodo, netVars, enteredAtClose>>
+  /\ UNCHANGED <<sessVars, cpc, hasReply, rcur, rerr, rbuf, rhpc, nfput, hpc, hres, clpc, rdTodo, netVars, enteredAtClose>>
 
 RSpawn ==       \* Go(handle); loop condition goonRead().  -> read.next | rd.loaded
   /\ rpc = "spawn"
@@ -199,7 +203,7 @@ RSpawn ==       \* Go(handle); loop condition goonRead().  -> read.next | rd.loa
   /\ CASE rcur[1] = "reply"   -> rhpc' = [rhpc EXCEPT ![rcur[2]] = "spawned"] /\ UNCHANGED <<nfput, hpc>>
        [] rcur[1] = "replyNF" -> nfput' = nfput + 1 /\ UNCHANGED <<rhpc, hpc>>
        [] rcur[1] = "call"    -> hpc' = [hpc EXCEPT ![rcur[2]] = "spawned"] /\ UNCHANGED <<rhpc, nfput>>
-  /\ UNCHANGED <<sessVars, callVars, rcur, rerr, wgCtx, hres, clpc, rdTodo, netVars, enteredAtClose>>
+  /\ UNCHANGED <<sessVars, callVars, rcur, rerr, rbuf, wgCtx, hres, clpc, rdTodo, netVars, enteredAtClose>>
 
 -----------------------------------------------------------------------------
 (* handleReply goroutine for call c                                        *)
@@ -426,6 +430,28 @@ NoLateHandler == [][(\E k \in Closers : clpc[k] = "returned") =>
                      \A h \in Inb : hpc'[h] = "entered" => hpc[h] = "entered"]_vars
 \* C08: outbound calls issued before Close complete with the reply if it arrived
 ReplyWins == \A c \in Calls : (cstat[c] = "ok") => c \in replied
+
+\* Coverage goals: TLC is asked to refute ~Goal, which yields a shortest behaviour reaching the situation;
+\* the behaviour is replayed on the real code (strictly and free-running) like any other scenario.
+AnyCl(pcs) == \E k \in Closers : clpc[k] \in pcs
+Goal2(a, b) == /\ cpc[a] = "returned" /\ cpc[b] = "returned" /\ {a, b} \subseteq wireOut
+               /\ AnyCl({"waitedCtx"}) /\ cstat[a] = "ok" /\ rhpc[a] = "fin" /\ doneCnt[b] = 0 /\ connUp
+GoalTwoCallsCloseOneReply == \E a, b \in Calls : a # b /\ Goal2(a, b)
+GoalTwoHandlersCloseOneDone == \E a, b \in Inb : a # b /\ hpc[a] = "fin" /\ hpc[b] = "entered"
+                                  /\ {a, b} \subseteq enteredAtClose /\ AnyCl({"notified"}) /\ connUp
+GoalCloseThenConnDown == \E c \in Calls : cpc[c] = "returned" /\ c \in wireOut /\ cstat[c] = "err" /\ ~connUp
+                            /\ AnyCl({"returned"}) /\ status = "ActiveClosed"
+GoalReplyDuringClose == \E c \in Calls : cstat[c] = "ok" /\ AnyCl({"returned"}) /\ status = "ActiveClosed"
+                           /\ rhpc[c] = "fin" /\ connUp
+GoalHandlerReplyDuringClose == \E h \in Inb : h \in enteredAtClose /\ hres[h] = "sent" /\ AnyCl({"returned"}) /\ connUp
+GoalInboundWhileClosing == \E h \in Inb, c \in Calls : h \notin enteredAtClose /\ hres[h] = "sent" /\ AnyCl({"waitedCtx"})
+                              /\ doneCnt[c] = 0 /\ c \in wireOut /\ connUp
+GoalConnDownTwoPending == Cardinality(pending) = 0 /\ status = "PassiveClosed" /\ rdpc = "end"
+                             /\ \A c \in Calls : cstat[c] = "err" /\ c \in wireOut
+GoalBadReplyOtherPending == \E a, b \in Calls : a # b /\ a \in replied /\ rerr /\ rdpc = "end" /\ status = "PassiveClosed"
+                               /\ cstat[b] = "err" /\ b \in wireOut
+GoalBufferedFrameAfterClose == rpc = "frame" /\ ~rerr /\ rcur[1] = "call" /\ status = "ActiveClosed" /\ sockClosed
+NotGoal(g) == ~g
 
 \* liveness (checked under WF on Fw, small constants, no state constraint)
 EventuallyDone == \A c \in Calls : (Started(c) /\ (c \in replied \/ ~connUp)) ~> (doneCnt[c] = 1)
